@@ -650,10 +650,10 @@ where
         for n in raw_value {
             let m = u8::try_from(n).map_err(|e| io::Error::new(io::ErrorKind::InvalidInput, e))?;
             writer.write_all(&[m])?;
+        }
 
-            for _ in 0..pad {
-                writer.write_all(&[i8::from(Int8::EndOfVector) as u8])?;
-            }
+        for _ in 0..pad {
+            writer.write_all(&[i8::from(Int8::EndOfVector) as u8])?;
         }
     }
 
